@@ -258,7 +258,11 @@ def tracker_step_bounded(p):
                     pick = sea[rng.integers(0, len(sea), n)]
                     X0 = pick[:, 1] + rng.uniform(-0.49, 0.49, n)
                     Y0 = pick[:, 0] + rng.uniform(-0.49, 0.49, n)
-                    ok = grid.ingrid(X0, Y0)
+                    # boundary values: every second particle starts exactly on a cell face (half-integer coordinate,
+                    # where round-half-even and floor(x + 0.5) name different cells); kept only if that is a sea position
+                    X0[::4] = pick[::4, 1] + rng.choice([-0.5, 0.5], len(X0[::4]))
+                    Y0[2::4] = pick[2::4, 0] + rng.choice([-0.5, 0.5], len(Y0[2::4]))
+                    ok = grid.ingrid(X0, Y0) & grid.atsea(X0, Y0)
                     X0, Y0 = X0[ok], Y0[ok]
                     n = len(X0)
                     if n == 0:
@@ -283,8 +287,12 @@ def tracker_step_bounded(p):
                         ab, acb = state.alive.copy(), state.active.copy()
                         hb = grid.depth(Xb, Yb)
                         force.variables["w"] = rng.uniform(-0.001, 0.001, len(state))
-                        trk.update()
                         cases += 1
+                        try:
+                            trk.update()
+                        except Exception as e:  # noqa: BLE001  (the code under test failed: a finding, not a harness crash)
+                            failures.append(dict(scenario=sc, scheme=sch, diffusion=diff, step=_step, what=f"Tracker.update raised {type(e).__name__}: {str(e)[:100]}"))
+                            break
                         X, Y, Z = state.X, state.Y, state.Z
                         f = None
                         if np.any(state.alive & ~ab):
@@ -309,6 +317,86 @@ def tracker_step_bounded(p):
     return dict(cases=cases, failures=failures[:10], samples=samples, bound=f"{nscen} random coastlines (6..11 cells, 1/3 one-cell channels) x 4 schemes x diffusion off/on x 3 steps, 12 particles")
 
 
+def tracker_history_bounded(p):
+    """C01/C15/C05 over HISTORIES of tracking steps (diffusion off, so every step is deterministic): the real Tracker and
+    State on a grid whose metric and depth differ from cell to cell; several consecutive updates without a change of
+    the particle set, a step where one particle is replaced by another (same count), a release. After EVERY update the
+    new state is compared with an independent evaluation of the selected scheme from the state before it (metric and
+    depth of the start cell), so a value cached from an earlier call shows up."""
+    from ladim.state import State
+    from ladim.tracker import Tracker
+
+    tier = p.get("tier", "quick")
+    rng = np.random.default_rng(p.get("seed", 0) + 5)
+    cases, failures, samples = 0, [], []
+    jm, im = 30, 34
+    jj, ii = np.meshgrid(np.arange(jm), np.arange(im), indexing="ij")
+    dxa = 600.0 + 25.0 * ii + 7.0 * jj
+    dya = 900.0 - 11.0 * ii + 13.0 * jj
+    H = 15.0 + 6.0 * ii + 2.5 * jj
+    grid = ArrayGrid(np.ones((jm, im)), H=H, dx=dxa, dy=dya)
+    lim = [grid.xmin + 0.01, grid.xmax - 0.01, grid.ymin + 0.01, grid.ymax - 0.01]
+    dt = 600
+
+    def vel(x, y, f):
+        return 0.35 + 0.02 * (x - 15) - 0.015 * (y - 12) + 0.1 * f, -0.25 + 0.01 * (x - 15) + 0.02 * (y - 12) - 0.05 * f
+
+    nrep = 2 if tier == "quick" else 8
+    for sch in ("", "EF", "RK2", "RK4"):
+        for vadv in (False, True):
+            for rep in range(nrep):
+                n = 6
+                state = State()
+                X0, Y0 = rng.uniform(8, 22, n), rng.uniform(8, 20, n)
+                state.append(X=X0, Y=Y0, Z=rng.uniform(0.2, 0.8, n) * grid.depth(X0, Y0))
+                force = TableForce([], [], analytic=vel)
+                force.variables = {"w": np.zeros(n)}
+                trk = Tracker(advection=sch, diffusion=0.0, vertdiff=0.0, vertical_advection=vadv, modules=dict(state=state, grid=grid, forcing=force, time=StubTimer(dt)))
+                script = ["step", "step", "swap", "step", "release", "step", "swap", "step"]
+                bad = None
+                for k, op in enumerate(script):
+                    if op == "swap":  # one particle dies and is removed, another one is released: same count
+                        state.alive[int(rng.integers(0, len(state)))] = False
+                        state.compactify()
+                        x, y = rng.uniform(8, 22, 1), rng.uniform(8, 20, 1)
+                        state.append(X=x, Y=y, Z=0.9 * grid.depth(x, y))
+                        continue
+                    if op == "release":
+                        x, y = rng.uniform(8, 22, 2), rng.uniform(8, 20, 2)
+                        state.append(X=x, Y=y, Z=0.5 * grid.depth(x, y))
+                        continue
+                    Xb, Yb, Zb = state.X.copy(), state.Y.copy(), state.Z.copy()
+                    w = rng.uniform(-0.03, 0.03, len(state))  # up to 18 m per step: reflections happen in the shallow cells
+                    force.variables["w"] = w
+                    cases += 1
+                    try:
+                        trk.update()
+                    except Exception as e:  # noqa: BLE001
+                        bad = f"Tracker.update raised {type(e).__name__}: {str(e)[:100]}"
+                        break
+                    dxs, dys = grid.metric(Xb, Yb)
+                    if sch:
+                        U, V = tableau_velocity(sch, TableForce([], [], analytic=vel), Xb, Yb, Zb, dt / dxs, dt / dys, lim)
+                    else:
+                        U, V = np.zeros(len(Xb)), np.zeros(len(Xb))
+                    eX, eY = Xb + U * dt / dxs, Yb + V * dt / dys
+                    eZ = Zb.copy()
+                    if vadv:
+                        h = grid.depth(Xb, Yb)
+                        eZ = Zb + w * dt
+                        eZ = np.where(eZ < 0, -eZ, eZ)
+                        eZ = np.where(eZ > h, 2 * h - eZ, eZ)
+                    dev = max(float(np.max(np.abs(state.X - eX))), float(np.max(np.abs(state.Y - eY))))
+                    dz = float(np.max(np.abs(state.Z - eZ)))
+                    if dev > 1e-9 or dz > 1e-9:
+                        bad = f"update #{k} of the history {script}: position differs from the scheme applied to the state before it by {dev:.3g} cells, depth by {dz:.3g} m"
+                        break
+                if bad:
+                    failures.append(dict(scheme=sch or "none", vertical_advection=vadv, what=bad))
+    samples.append(dict(grid="dx = 600 + 25 i + 7 j, dy = 900 - 11 i + 13 j, h = 15 + 6 i + 2.5 j", history=["step", "step", "swap", "step", "release", "step", "swap", "step"]))
+    return dict(cases=cases, failures=failures[:10], samples=samples, bound=f"4 schemes x vertical advection off/on x {nrep} random starts x a history of 5 updates with a same-count replacement and a release in between")
+
+
 def diffusion_moments(p):
     """Bounded: sample mean/variance of the real Tracker's random walk against 2*D*dt (5-sigma bands)."""
     from ladim.state import State
@@ -317,7 +405,8 @@ def diffusion_moments(p):
     tier = p.get("tier", "quick")
     npart = 20000 if tier == "quick" else 200000
     cases, failures, samples = 0, [], []
-    for D, Dz, dt, dx in ((1.0, 1e-3, 600, 800.0), (100.0, 1e-2, 60, 4000.0), (0.01, 1e-4, 3600, 160.0)):
+    # both on, horizontal only, vertical only (a generator state shared between the directions must not be reused)
+    for D, Dz, dt, dx in ((1.0, 1e-3, 600, 800.0), (100.0, 1e-2, 60, 4000.0), (0.01, 1e-4, 3600, 160.0), (1.0, 0.0, 600, 800.0), (0.0, 1e-3, 600, 800.0)):
         for seed in range(2 if tier == "quick" else 6):
             grid = ArrayGrid(np.ones((200, 200)), H=np.full((200, 200), 1e6), dx=np.full((200, 200), dx), dy=np.full((200, 200), 2 * dx))
             state = State()
@@ -326,9 +415,16 @@ def diffusion_moments(p):
             trk = Tracker(advection="", diffusion=D, vertdiff=Dz, modules=dict(state=state, grid=grid, forcing=force, time=StubTimer(dt)))
             trk.rng = np.random.default_rng(1000 * seed + p.get("seed", 0))
             nsteps = 5
+            incr = []
             for _ in range(nsteps):
+                xb = state.X.copy()
                 trk.update()
+                incr.append(state.X - xb)
             cases += 1
+            if D > 0:
+                ci = float(np.corrcoef(incr[0], incr[1])[0, 1])
+                if abs(ci) > 5 / npart**0.5:
+                    failures.append(dict(D=D, Dz=Dz, what="displacements of consecutive steps are correlated (draws must be independent between steps)", corr=ci))
             t = nsteps * dt
             for nm, arr, scale, var in (("x", state.X - 100.0, dx, 2 * D * t), ("y", state.Y - 100.0, 2 * dx, 2 * D * t), ("z", state.Z - 5e5, 1.0, 2 * Dz * t)):
                 m = float(np.mean(arr) * scale)
@@ -350,4 +446,4 @@ def diffusion_moments(p):
     cases += 1
     if np.any(state.X != 10.0) or np.any(state.Z != 5.0):
         failures.append(dict(what="movement with zero coefficients"))
-    return dict(cases=cases, failures=failures[:10], samples=samples[:3], bound=f"{npart} particles, 5 steps, 3 parameter sets, 5-sigma bands")
+    return dict(cases=cases, failures=failures[:10], samples=samples[:3], bound=f"{npart} particles, 5 steps, 5 parameter sets (both on, horizontal only, vertical only), 5-sigma bands, step-to-step correlation")
